@@ -1,5 +1,5 @@
 #!/venv/bin/python
-"""Evaluate a seeded change:  tools/seedtest.py <property id> <dir with patch.diff + demo.py> [--keep-as NAME] [--all]
+"""Evaluate a seeded change:  tools/seedtest.py <property id> <dir with patch.diff + demo.py> [--keep-as NAME] [--all] [--update-meta]
 
 1. scratch copy of /repo under /tmp (outside /repo and /verif), patch applied there;
 2. the repository's test suite must still pass (38 passed);
@@ -76,13 +76,16 @@ def main():
     res["valid_seed"] = bool(res.get("patch_applies") and res.get("tests_passed") == 38 and not res.get("tests_failed")
                              and res.get("demo_without_patch_rc") == 0 and res.get("demo_with_patch_rc") not in (0, None))
     print(json.dumps(res, indent=1))
+    if "--update-meta" in sys.argv:          # re-evaluation of a seed kept under /verif/seeded: only meta.json is rewritten
+        keep = os.path.basename(seed)
     if keep:
         dst = os.path.join(VERIF, "seeded", keep)
-        shutil.rmtree(dst, ignore_errors=True)
-        os.makedirs(dst)
-        for f in os.listdir(seed):
-            if os.path.isfile(os.path.join(seed, f)):
-                shutil.copy(os.path.join(seed, f), dst)
+        if os.path.abspath(dst) != seed:
+            shutil.rmtree(dst, ignore_errors=True)
+            os.makedirs(dst)
+            for f in os.listdir(seed):
+                if os.path.isfile(os.path.join(seed, f)):
+                    shutil.copy(os.path.join(seed, f), dst)
         notes = ""
         if os.path.exists(os.path.join(seed, "notes.md")):
             notes = open(os.path.join(seed, "notes.md")).read()
